@@ -142,8 +142,8 @@ P("C15", [f"{UT}:parse_cooler_uri", "cooler.fileops:_copy", "cooler.fileops:_is_
 P("C16", [f"{ING}:_sanitize_pixels", f"{ING}:_validate_pixels", f"{RQ}:FillLowerRangeQuery2D.__init__", f"{RQ}:DirectRangeQuery2D.__init__"], "bounded/C16.py", "Proof core: the pieces of the dump/load paths that are under contract - the query engines dump iterates (exactly-once lemma, shared with C03) and the pre-binned-record sanitizer and validator cooler load runs every chunk through (shared with C05/C13). The option semantics of dump, the loaders' column mapping and the zoomify spec expansion are covered by the bounded tier (all 128 dump option subsets, all column permutations).",
   level="other", unverified=["cli.dump (option semantics)", "cli.load / cli.cload.pairs (column mapping)", "parse_field_param", "zoomify spec loop"])
 
-P("C17", [f"{CR}:create"], "bounded/C17.py", "Proof core: the per-cell append path of create() (create() itself is verified as a coordinator over a ghost operation log (every helper and h5py call replaced by a recording stub; 41 configurations of mode/append/root-or-nested target/check flags/input forms/single-cell append, symbolic paths, counts and symmetric flag)): a cell's chroms table and its three standard bin columns are hard links to the ROOT tables of the single-cell file named by scool_root_uri (no table is written again), its own extra bin columns - exactly the non-standard columns of the cell's bin table - are stored per cell under <cell>/bins, its pixels, indexes and info are written as for any collection, the root file is never truncated, and append_scool without a root URI is refused. create_scool's loop over cells, cell naming and listing are covered by the bounded tier.", level="other",
-  unverified=["create_scool (root tables, loop over cells, cell names)", "list_scool_cells / is_scool_file", "h5py hard-link semantics (assumed)"])
+P("C17", [f"{CR}:create", f"{CR}:create_scool"], "bounded/C17.py", "Proof core: the per-cell append path of create() (create() itself is verified as a coordinator over a ghost operation log (every helper and h5py call replaced by a recording stub; 41 configurations of mode/append/root-or-nested target/check flags/input forms/single-cell append, symbolic paths, counts and symmetric flag)): a cell's chroms table and its three standard bin columns are hard links to the ROOT tables of the single-cell file named by scool_root_uri (no table is written again), its own extra bin columns - exactly the non-standard columns of the cell's bin table - are stored per cell under <cell>/bins, its pixels, indexes and info are written as for any collection, the root file is never truncated, and append_scool without a root URI is refused. create_scool itself (coordinator, 1..3 cells given in an insertion order different from the sorted one, common or per-cell bin tables): every cell gets exactly one per-cell create at <file>::/cells/<name> with ITS OWN pixels and ITS OWN bin table, appended and linked to this file's root; the root gets the common chroms, the three standard bin columns and a scool info record with ncells = number of cells; the file is created with the caller's mode once; a bins dict with other keys than the cells is refused. (A name containing '/' is stored under its basename: known finding, refuted clause.) Larger cell sets, reading back and listing are covered by the bounded tier.", level="other",
+  unverified=["list_scool_cells / is_scool_file", "create_scool for more than 3 cells (the per-cell loop does not depend on the count)", "h5py hard-link semantics (assumed)"])
 
 P("C18", [f"{CR}:_rename_chroms", f"{CR}:rename_chroms"], "bounded/C18.py",
   "Proof core: _rename_chroms over a ghost operation log of the HDF5 group, for all tables, maps and both "
